@@ -173,7 +173,7 @@ def sortedChildrenOrder (names : List String) (order : List String) (conns : Lis
     let g : Graph.G := names.map fun n => (n, sortBy (· < ·) (preds n))
     match Graph.staticOrder g with
     | some o => pure o
-    | none => throw (.internal "CycleError")
+    | none => throw (.compilation "Connections between children form a cycle")
 
 def reorder {α} (name : α → String) (xs : List α) (order : List String) : List α :=
   order.filterMap fun n => xs.find? (fun x => name x = n)
